@@ -13,7 +13,7 @@ from ..clidrv import ALL_YEARS_TOML
 from ..mcpdrv import Session, call, check_history
 from ..model import fx as fxm
 from ..probe import probe
-from ..util import rng_for, sha, fr, iso, d as pdate, round_half_away, tax_year_of
+from ..util import cap_viols, rng_for, sha, fr, iso, d as pdate, round_half_away, tax_year_of
 from . import ledger_core as lc
 from .c09 import to_json_text
 
@@ -541,7 +541,7 @@ def run_sessions(desc):
     samples = []
     for _ in range(desc["n"]):
         run_session(rng, cnt, viols, hashes, samples)
-    return {"evaluations": cnt["requests"], "nontrivial_hashes": hashes, "counters": cnt, "violations": viols[:30], "samples": samples}
+    return {"evaluations": cnt["requests"], "nontrivial_hashes": hashes, "counters": cnt, "violations": cap_viols(viols), "samples": samples}
 
 
 def run_embedded(desc):
@@ -630,7 +630,7 @@ def run_embedded(desc):
                                       "detail": k, "case": {"op": "mcp-request", "request": r, "config": "embedded"}})
                 else:
                     cnt["embedded_unconfigured_year_errors"] += 1
-    return {"evaluations": cnt["requests"], "nontrivial_hashes": hashes, "counters": cnt, "violations": viols[:30], "samples": samples}
+    return {"evaluations": cnt["requests"], "nontrivial_hashes": hashes, "counters": cnt, "violations": cap_viols(viols), "samples": samples}
 
 
 def run_envelope(desc):
